@@ -353,7 +353,7 @@ class C19(fw.Property):
                     "virtual-time loop and fake transport (harness/simloop.py, simnet.py)"]
     assumptions = ["no symbolic links below the root (the server cannot create one — oracle rule C19:symlink-created; with links planted by somebody else confinement is lexical only, wild stream)",
                    "mimetypes.guess_type's one-time, request-independent read of the system's mime.types files is exempt (done in setup before recording starts)",
-                   "C19_error_has_no_effect assumes that writing the request body into the temporary file does not fail (fs_disk_full = false); the failing case is the open finding tempfile-left-after-failed-write",
+                   "a failing write of the request body is modelled as 'disk full' (fs_disk_full): the write of a non-empty body raises ENOSPC; partial writes are not distinguished",
                    "an error response may still have registered the path in _observations (Observe:0 on a directory / missing file): no file-system effect, only st_obs changes", "the root is an absolute path or a relative path (root_ok); the one-name-space file-system model and the absolutised temp name assume a relative root's parts contain no '..'", "single-threaded server, no concurrent modification of the tree",
                    "temporary file names are fresh (tempfile retries on collision)"]
 
@@ -539,12 +539,14 @@ class C19(fw.Property):
         if rng.random() < 0.2: opts["if_match"] = [rng.choice(["other", "empty"])]
         if rng.random() < 0.15: opts["inm"] = True
         seq = [dict(opts, m=m, path=path, block1=[i, True, szx], payload=[bs, rng.randint(0, 9)]) for i in range(nfull)]
-        seq.append(dict(opts, m=m, path=path, block1=[nfull, False, szx], payload=[rng.choice([0, 1, bs - 1, bs]), rng.randint(0, 9)]))
-        fault = rng.choice(["none", "none", "none", "gap", "short", "restart", "repeat-last", "no-first", "observe", "other-key"])
+        seq.append(dict(opts, m=m, path=path, block1=[nfull, False, szx], payload=[rng.choice([0, 1, bs - 1, bs, bs, bs + 1]), rng.randint(0, 9)]))      # bs + 1: a final block larger than its block size
+        fault = rng.choice(["none", "none", "none", "gap", "short", "restart", "repeat-last", "continue-after-last", "no-first", "observe", "other-key"])
         if fault == "gap" and len(seq) > 2: del seq[1]
         elif fault == "short": seq[rng.randint(0, nfull - 1)]["payload"][0] = bs - 1
         elif fault == "restart": seq.insert(rng.randint(1, len(seq) - 1), dict(seq[0]))
         elif fault == "repeat-last": seq.append(dict(seq[-1]))
+        elif fault == "continue-after-last" and seq[-1]["payload"][0] == bs:      # the completed body has left the spool: nothing to continue
+            seq.append(dict(opts, m=m, path=path, block1=[nfull + 1, False, szx], payload=[3, 1]))
         elif fault == "no-first": del seq[0]
         elif fault == "observe": seq[-1]["obs"] = 0                     # Observe:0 bypasses the spool: only the last block's payload is seen
         elif fault == "other-key": seq[-1]["inm"] = not seq[-1].get("inm", False)
@@ -756,10 +758,6 @@ class C19(fw.Property):
         if inp.get("rootspec") == ".":      # what lies above the working directory is not in the model's name space (and cannot be named without "..")
             final += [[["base", "root"], True, 0, 0], [["base", "outside"], True, 0, 0], [["base", "outside", "secret"], False, len(SECRET), cksum(SECRET)],
                       [["base", "root2"], True, 0, 0], [["base", "root2", "x"], False, len(SECRET), cksum(SECRET)]]
-        # the one request served on a full disk: the model's final tree tells whether the temporary file was left behind
-        left = any(k[0][-1] == TMPNAME for k in final)
-        for it, g in zip(inp["items"], trace):
-            if it.get("full") and g[0]["code"] == 160 and left and g[0]["eff"] and g[0]["eff"][-1][0] == "Create": g[0]["chg"] = True
         return {"trace": trace, "final": sorted(final)}
 
     # ---------------------------------------------------------------- oracle: the property on the implementation's behaviour
@@ -818,12 +816,21 @@ class C19(fw.Property):
             if it.get("block1") is not None and it["m"] != 1 and it.get("obs") != 0 and not it.get("block2"):
                 key = fw.jdump([it["m"], comps, it.get("etags"), it.get("if_match"), bool(it.get("inm"))])
                 num, more, szx = it["block1"]; body = content(*it["payload"]) if it.get("payload") else b""
-                if num == 0: spool[key] = body
-                elif key in spool and num * 2 ** (min(szx, 6) + 4) == len(spool[key]) and group[0]["code"] not in (128, 136): spool[key] += body
-                elif key in spool and group[0]["code"] < 128: return ("C19:block1-gap-accepted", "%s: block %d does not continue a body of %d bytes but was answered %d" % (what, num, len(spool[key]), group[0]["code"]))
-                if it["m"] == 3 and not more and group[0]["code"] == 68 and key in spool and after is not None and after[i] is not None and after[i] != spool[key]:
+                bs = 2 ** (min(szx, 6) + 4)
+                fits = (len(body) % 1024 == 0 or not more) if szx == 7 else (len(body) == bs if more else len(body) <= bs)      # RFC 7959 2.2 / RFC 8323 6
+                expect = None       # the body a completing block releases, by the oracle's own bookkeeping
+                if num == 0:
+                    spool[key] = body
+                    if not more: expect = spool.pop(key)
+                elif key in spool and fits and num * bs == len(spool[key]):
+                    spool[key] += body
+                    if not more: expect = spool.pop(key)
+                elif group[0]["code"] < 128:
+                    return ("C19:block1-gap-accepted", "%s: block %d (%d bytes) does not continue %s but was answered %d" % (
+                        what, num, len(body), "a body of %d bytes" % len(spool[key]) if key in spool else "any body in progress", group[0]["code"]))
+                if it["m"] == 3 and expect is not None and group[0]["code"] == 68 and after is not None and after[i] is not None and after[i] != expect:
                     return ("C19:block1-body-mismatch", "%s: the assembled body has %d bytes, the file written has %d (first difference at %d)" % (
-                        what, len(spool[key]), len(after[i]), next((j for j in range(min(len(after[i]), len(spool[key]))) if after[i][j] != spool[key][j]), min(len(after[i]), len(spool[key])))))
+                        what, len(expect), len(after[i]), next((j for j in range(min(len(after[i]), len(expect))) if after[i][j] != expect[j]), min(len(after[i]), len(expect)))))
             # block-wise reads
             disk = side[i] if side is not None and i < len(side) else None
             if it["m"] == 1 and disk is not None and comps and comps[-1] != "" and comps != WKC and not it.get("block1") and not it.get("etags"):
